@@ -71,6 +71,8 @@ def pair_ok(events, erase=False):
             stored = False
     if stored:
         return "buffer stored but not discarded afterwards (its text would be emitted again)"
+    if kept:
+        return "buffer put into the roll-up window but the active buffer was not rebuilt from the window"
     return None
 
 
